@@ -580,3 +580,47 @@ prop(dict(
          "non-trivial = some non-empty input; distinct = distinct case records",
     assumptions=COMMON_ASSUME + ["fragment contents are compared by the harness (facts: input unchanged, fragment unchanged after overwrite, equal to the twin's output); TLC judges lengths and facts"],
 ))
+
+
+# ---------------------------------------------------------------- C09
+C09_KINDS = ["h264", "h264_avc", "h265", "h265_donl", "vp8", "vp9", "av1", "av1_legacy", "opus", "h265_single", "h265_single_donl", "h265_fu", "h265_fu_donl", "h265_ap", "h265_ap_donl", "h265_paci"]
+
+
+def rand_c09(seed, tier, cases=None):
+    rng = random.Random(seed * 7919 + 9)
+    out = []
+    for _ in range(3000 if tier == "quick" else 80000):
+        kind = rng.choice(C09_KINDS)
+        items = []
+        for j in range(rng.randint(1, 4)):
+            ln = rng.choice([0, 1, 2, 3, 4, 5, 8, rng.randint(0, 40)])
+            b = [rng.randint(0, 255) for _ in range(ln)]
+            if b and rng.random() < 0.6:
+                b[0] = rng.choice([0x1C, 0x7C, 0x18, 0x78, 0x62, 0x60, 0x64, 0x90, 0x80, 0xFF, 0xAA, 0x10, 0x50, 0x30, 0x00])
+            items.append(b)
+        out.append(dict(fam="C09", kind=kind, src="bytes", items=items, probes=True, scribble=True, **{"class": kind + "_rand"}))
+    return out
+
+
+prop(dict(
+    id="C09", fam="C09",
+    mc=[("PayloaderMC.tla", "PayloaderMC.cfg", {"thorough": {"MaxCalls": "4"}}), ("PayloaderMC.tla", "PayloaderMCAlias.cfg", {}, "expect_violation")],
+    gen=[("DepacketizerGen.tla", "DepacketizerGen.cfg", {"thorough": {"Stride": "1", "Sweep": "TRUE", "All2": "TRUE",
+                                                                        "Alpha3": "{0, 1, 2, 24, 28, 29, 48, 49, 50, 64, 96, 98, 100, 127, 128, 129, 144, 156, 192, 224, 240, 248, 254, 255}"}})],
+    rand=rand_c09,
+    trace=("DepacketizerTrace.tla", "DepacketizerTrace.cfg"),
+    shards={"quick": 6, "thorough": 14},
+    workers=16,
+    timeout={"quick": 1200, "thorough": 10000},
+    class_of=lambda c: c["class"],
+    nontrivial=lambda c: c.get("src") != "bytes" or any(len(i) > 0 for i in c.get("items", [])),
+    mandatory=["h264_bytes1", "h264_avc_bytes2_warm", "h265_bytes3", "h265_donl_bytes2_warm", "vp8_bytes2_warm", "vp9_bytes3_warm", "av1_bytes2", "av1_legacy_bytes2",
+               "opus_bytes0", "h264_feed_drop", "av1_feed_mut", "vp9_feed", "h265_donl_feed_trunc", "vp9_rand"],
+    rule="TLC enumerates, for each of sixteen receivers (H264 Annex-B/AVC, H265Packet with/without DONL and the public H265 single/FU/aggregation/PACI packet types, VP8, VP9, AV1Depacketizer, AV1Packet+frame assembler, Opus): the empty string, all 256 one-byte "
+         "strings, two-byte strings (quick: 24-value boundary alphabet squared, thorough: all 65536) and three-byte strings over a boundary alphabet, each alone and between two 'warm' payloads that "
+         "set every field of the receiver; payloader outputs (all matching payloaders, shapes, MTUs 5/12/20/100) with no edit and every single edit (nil, empty, drop, duplicate, truncate, mutate first "
+         "bytes) as multi-packet histories; IsPartitionHead/IsPartitionTail are interleaved; every earlier input buffer is overwritten after each call; thorough adds 16 x 256 sweep cases covering all "
+         "2^24 three-byte strings for the panic clause; seeded random sequences are added; distinct = distinct case records",
+    assumptions=COMMON_ASSUME + ["on an error result only error-ness is compared; metadata is compared on success only",
+                                 "the AV1Packet + frame assembler path is judged for panics only (the statement asks ownership of H264Packet and AV1Depacketizer)"],
+))
